@@ -201,6 +201,8 @@ def run(t):
             validate_signserver(run, lines, label)
             if label == "file-ok":
                 run.sample([{k: v for k, v in e.items() if v not in ("", [], False, 0)} for e in lines[1:7]])
+        # the publisher itself under concurrency (32 goroutines through signinit.PublishAudit): each record once, intact, unmixed
+        absorb(run, parse_vh_json(run_vh(vh, ["audit-stress", "32", "150" if t == "quick" else "1500"], env={"VERIF_TMP": d}, timeout=900), "audit-stress"))
         strace_appenders(run, vh, d, 60 if t == "quick" else 300, 8 if t == "quick" else 32)
         standalone(run, relic, d)
     finally:
